@@ -45,7 +45,7 @@ BASES = ["string", "integer", "uinteger", "boolean", "decimal", "DocumentUri", "
 NAMES = ["label", "from", "type", "base64Data", "class", "workDoneToken", "utf8Length", "_meta", "baseURI", "isHTML", "content_type", "x"]
 DIRS = ["clientToServer", "serverToClient", "both"]
 OPT = [None, False, True]
-NSHAPE = 14
+NSHAPE = 17
 
 _SCHEMA = None
 
@@ -91,7 +91,14 @@ def mk_type(sel, b1, b2):
         return {"kind": "map", "key": {"kind": "base", "name": "string"}, "value": inner}
     if sel == 12:
         return {"kind": "or", "items": [{"kind": "reference", "name": "Other"}, {"kind": "array", "element": inner}] + ([base2] if b2 else [])}
-    return {"kind": "tuple", "items": [{"kind": "base", "name": "uinteger"}, inner]}
+    if sel == 13:
+        return {"kind": "tuple", "items": [{"kind": "base", "name": "uinteger"}, inner]}
+    # the other map key types of the schema (MapKeyType: URI | DocumentUri | string | integer, or a reference)
+    if sel == 14:
+        return {"kind": "map", "key": {"kind": "base", "name": "integer"}, "value": base1}
+    if sel == 15:
+        return {"kind": "map", "key": {"kind": "base", "name": ["DocumentUri", "URI", "string"][b2]}, "value": {"kind": "array", "element": base1}}
+    return {"kind": "map", "key": {"kind": "reference", "name": "KeyAlias"}, "value": base1}
 
 
 def base_doc():
@@ -107,6 +114,7 @@ def base_doc():
             {"name": "LSPAny", "type": {"kind": "or", "items": [{"kind": "reference", "name": "LSPObject"}, {"kind": "reference", "name": "LSPArray"}, {"kind": "base", "name": "string"}, {"kind": "base", "name": "integer"}, {"kind": "base", "name": "uinteger"}, {"kind": "base", "name": "decimal"}, {"kind": "base", "name": "boolean"}, {"kind": "base", "name": "null"}]}},
             {"name": "LSPObject", "type": {"kind": "map", "key": {"kind": "base", "name": "string"}, "value": {"kind": "reference", "name": "LSPAny"}}},
             {"name": "LSPArray", "type": {"kind": "array", "element": {"kind": "reference", "name": "LSPAny"}}},
+            {"name": "KeyAlias", "type": {"kind": "base", "name": "string"}},
         ],
         "structures": [{"name": "Other", "properties": [{"name": "uri", "type": {"kind": "base", "name": "DocumentUri"}}]}],
         "requests": [],
@@ -278,6 +286,45 @@ def doc_text(where, field, ti):
     return d
 
 
+def doc_params(own, b1, b2, via2):
+    """the params structure of a request and a notification gets its members from: own properties (own), a first base
+    and a second base (each: none / a property-less structure / a structure with a member), the second one extended or
+    mixed in - every combination in which the flattened structure has a member must be declared as the params type"""
+    d = base_doc()
+    d["structures"].append({"name": "Empty", "properties": []})
+    d["structures"].append({"name": "Full1", "properties": [{"name": "one", "type": {"kind": "base", "name": "string"}}]})
+    d["structures"].append({"name": "Full2", "properties": [{"name": "two", "type": {"kind": "base", "name": "integer"}, "optional": True}]})
+    p = {"name": "P", "properties": [{"name": "own", "type": {"kind": "base", "name": "boolean"}}] if own else []}
+    bases = [None, "Empty", "Full1"]
+    if b1:
+        p.setdefault("extends", []).append({"kind": "reference", "name": bases[b1]})
+    if b2:
+        p.setdefault("mixins" if via2 else "extends", []).append({"kind": "reference", "name": [None, "Empty", "Full2"][b2]})
+    d["structures"].append(p)
+    return add_messages(d, params="P")
+
+
+REQ_NAMES = [("evo/runTask", None), ("evo/runTask", "EvoRunTaskRequest"), ("evo/showRequest", None), ("evo/runTask", "EvoThing"), ("evo/requestReview", None), ("evo/runTask", "ReviewRequestStatusRequest")]
+NOT_NAMES = [("$/evo/noteChange", None), ("$/evo/noteChange", "EvoNoteChangeNotification"), ("evo/changeNotification", None), ("$/evo/noteChange", "EvoNote")]
+
+
+def doc_msgnames(rn, nn, has_params):
+    """how message classes are named: method with / without typeName, a method that already ends in Request /
+    Notification, a typeName without the suffix, the word Request inside the name"""
+    d = base_doc()
+    d["structures"].append({"name": "P", "properties": [{"name": "id", "type": {"kind": "base", "name": "integer"}}]})
+    add_messages(d, "P", False, False, 0, 0, has_params, 1)
+    m, tn = REQ_NAMES[rn]
+    d["requests"][0]["method"] = m
+    if tn:
+        d["requests"][0]["typeName"] = tn
+    m, tn = NOT_NAMES[nn]
+    d["notifications"][0]["method"] = m
+    if tn:
+        d["notifications"][0]["typeName"] = tn
+    return d
+
+
 def doc_enum(base, custom, pv, use):
     d = base_doc()
     vals = [{"name": "A", "value": "a" if base == 0 else 1}, {"name": "B", "value": "b" if base == 0 else 2}]
@@ -316,6 +363,14 @@ def doc_literal(where, o1, o2, name_idx, inh=0):
         t = {"kind": "or", "items": [{"kind": "array", "element": lit}, {"kind": "base", "name": "null"}]}
     elif where == 4:
         t = {"kind": "array", "element": {"kind": "or", "items": [lit, {"kind": "base", "name": "string"}]}}
+    elif where in (5, 6):
+        # a union of two anonymous literals over the same member names with different optionality ("variant literals",
+        # the shape of LSP 3.17's TextDocumentFilter), alone or next to a base alternative
+        q1 = {"name": NAMES[name_idx], "type": {"kind": "base", "name": "string"}, **({} if o1 else {"optional": True})}
+        q2 = {"name": "detailInfo", "type": {"kind": "base", "name": "string"}, **({"optional": True} if o1 else {})}
+        lit2 = {"kind": "literal", "value": {"properties": [q1, q2]}}
+        litA = {"kind": "literal", "value": {"properties": [dict(p1), {"name": "detailInfo", "type": {"kind": "base", "name": "string"}, **({"optional": True} if o2 else {})}]}}
+        t = {"kind": "or", "items": [litA, lit2] + ([{"kind": "base", "name": "string"}] if where == 6 else [])}
     P = {"name": "P", "properties": [{"name": "clientInfo", "type": t}, {"name": "id", "type": {"kind": "base", "name": "integer"}}]}
     child = {"name": "Child", "properties": [{"name": "extra", "type": {"kind": "base", "name": "boolean"}, "optional": True}], "extends": [{"kind": "reference", "name": "P"}]}
     if inh == 1:
@@ -638,7 +693,7 @@ def evaluate(plugin, doc, prop=None):
     return (["%s: %s of %s: expected %r, emitted %r" % (plugin, k[-1], ".".join(str(x) for x in k[:-1] if x != ""), w, g) for k, w, g in new[:8]], known)
 
 
-FAMILY_RANGES = {"text": [7, len(TEXT_FIELDS), len(TEXTS)], "override": [2, 2, 4, 4, 2], "types2": [NSHAPE, NSHAPE, 3, 3, len(NAMES), len(NAMES) - 1], "graph5": [3] * 7 + [1], "types": [NSHAPE, len(BASES), 3, 3, len(NAMES)], "marks": [2] * 8, "messages": [2, 2, 3, 3, 2, 4], "graph": [3] * 6, "enum": [3, 3, 2, 3], "literal": [5, 2, 2, len(NAMES), 3], "alias": [7, 4, 3]}
+FAMILY_RANGES = {"msgnames": [len(REQ_NAMES), len(NOT_NAMES), 2], "params": [2, 3, 3, 2], "text": [7, len(TEXT_FIELDS), len(TEXTS)], "override": [2, 2, 4, 4, 2], "types2": [NSHAPE, NSHAPE, 3, 3, len(NAMES), len(NAMES) - 1], "graph5": [3] * 7 + [1], "types": [NSHAPE, len(BASES), 3, 3, len(NAMES)], "marks": [2] * 8, "messages": [2, 2, 3, 3, 2, 4], "graph": [3] * 6, "enum": [3, 3, 2, 3], "literal": [7, 2, 2, len(NAMES), 3], "alias": [7, 4, 3]}
 
 
 def _concretize(f, n):
@@ -652,7 +707,7 @@ def _concretize(f, n):
     raise AssertionError("flag outside its range")
 
 
-DOCS = {"text": doc_text, "override": doc_override, "types2": doc_types2, "graph5": doc_graph5, "alias": doc_aliasfam, "types": doc_types, "marks": doc_marks, "messages": doc_messages, "graph": doc_graph, "enum": doc_enum, "literal": doc_literal}
+DOCS = {"msgnames": doc_msgnames, "params": doc_params, "text": doc_text, "override": doc_override, "types2": doc_types2, "graph5": doc_graph5, "alias": doc_aliasfam, "types": doc_types, "marks": doc_marks, "messages": doc_messages, "graph": doc_graph, "enum": doc_enum, "literal": doc_literal}
 
 
 def tiny_ok(family, plugin, *flags):
@@ -749,8 +804,13 @@ def tiny_lemmas(plugins, tier):
             add(plugin, "graph", "e%d" % e32, ["e31", "e30", "e21", "e20", "e10"], [3] * 5, "%d, e31, e30, e21, e20, e10" % e32, {"e32": e32})
         add(plugin, "enum", "all", ["base", "custom", "pv", "use"], [3, 3, 2, 3], "base, custom, pv, use", {})
         for inh in range(3):
-            add(plugin, "literal", "i%d" % inh, ["where", "o1", "o2", "name_idx"], [5, 2, 2, len(NAMES)], "where, o1, o2, name_idx, %d" % inh, {"inh": inh})
+            # where 5 / 6 (two literals in one union): not for python (its relations key literal classes by position, two
+            # literals at one position are not told apart); 6 not for dotnet (recorded finding covers all of it)
+            nwhere = {"python": 5, "dotnet": 6}.get(plugin, 7)
+            add(plugin, "literal", "i%d" % inh, ["where", "o1", "o2", "name_idx"], [nwhere, 2, 2, len(NAMES)], "where, o1, o2, name_idx, %d" % inh, {"inh": inh})
         add(plugin, "alias", "all", ["kind", "extra", "used"], [7, 4, 3], "kind, extra, used", {})
+        add(plugin, "msgnames", "all", ["rn", "nn", "has_params"], [len(REQ_NAMES), len(NOT_NAMES), 2], "rn, nn, has_params", {})
+        add(plugin, "params", "all", ["own", "b1", "b2", "via2"], [2, 3, 3, 2], "own, b1, b2, via2", {})
         for field in range(len(TEXT_FIELDS)):
             add(plugin, "text", "f%d" % field, ["where", "ti"], [7, len(TEXTS)], "where, %d, ti" % field, {"field": field})
         for e10 in range(2):
@@ -770,11 +830,11 @@ def tiny_lemmas(plugins, tier):
 PREAMBLE = ["from props import evolve as E"]
 
 
-def run_tiny(chk, plugins, tier, prop):
-    """run the tiny-metamodel lemmas for the given plugins; fills chk"""
+def run_tiny(chk, plugins, tier, prop, families=None):
+    """run the tiny-metamodel lemmas for the given plugins (optionally only some families); fills chk"""
     from vlib import leafrt, xh
 
-    ls = tiny_lemmas(plugins, tier)
+    ls = [l for l in tiny_lemmas(plugins, tier) if families is None or l.meta["family"] in families]
     for l in ls:
         for e in chk.known_for(l.meta["site"]):
             if e.get("region"):
